@@ -33,6 +33,7 @@ Inductive case :=
 | CFile (t : cls) (c : root) (accepted : bool) (static dynamic apps cursor : list N)
 | CDash (t : cls) (srcs : list str) (g : integ) (accepted : bool) (static dynamic apps : list N)
 | CSrc (t : cls) (name : str) (g : integ) (accepted : bool) (static dynamic apps store : list N) (quiet : bool)
+| CSafe (t : cls) (s : str) (ok : bool)
 | CClass (t : cls).
 
 Definition ver : str := s2r "verif1".
@@ -87,6 +88,8 @@ Definition check (c : case) : bool :=
       then acc && check_texts (conn_texts (all_sql_dash ver [name] g)) st dy
            && list_eqb N.eqb (sortN (pool_texts (all_sql_dash ver [name] g))) (sortN apps)
       else negb acc && quiet && is_nil st && is_nil dy && is_nil apps && is_nil store
+  (* wstrings.Safe on one string (invalid bytes arrive as U+FFFD, as Go's range yields them) *)
+  | CSafe t s ok => Bool.eqb (safe (mk_uni t) s) ok
   | CClass t =>
       forallb (fun x => match x with (c, l, d) =>
                  if c <? 128 then Bool.eqb l (ascii_letter c) && Bool.eqb d (ascii_digit c) else true end) t
